@@ -116,7 +116,7 @@ def tcb_forged_part(ctx, role_filter, name='tcb-forged-segment', situations=None
         return part
     part.bounds = (f'{len(units)} units = {len(set((u["situation"], u["target"]) for u in units))} (situation, endpoint) pairs x {len(units) // len(set((u["situation"], u["target"]) for u in units))} flag classes; '
                    + ('both ISN shifts k1, k2 32-bit symbolic (wrap-around anywhere in handshake or transfer included); ' if shift else '') +
-                   'ISNs 32-bit symbolic; forged seq, ack 32-bit, window 16-bit, PSH/URG, text length 0..=MSS symbolic; written data 1..=2*MSS symbolic; '
+                   'ISNs 32-bit symbolic; forged seq, ack 32-bit, window 16-bit, PSH/URG, text length 0..=MSS symbolic; written data ' + ('2000 bytes (concrete); ' if shift else '1..=2*MSS symbolic; ')
                    + ('follow-up: segments(), receive()' if ctx.quick else 'follow-up: segments(), receive(), advance_time(symbolic <= 5 s), segments()'))
     part.outside = 'more than one forged segment per history; MTU other than 1500; states reachable only through longer histories than the situations listed'
     return part
